@@ -1284,13 +1284,13 @@ def main(chk: C.Check, build: C.Build) -> None:
         static = run_static(chk, stats)
         timing: dict[str, float] = {}
         t0 = time.time()
-        run_dynamic(chk, r, 6000 if thorough else 260, root, stats)
+        run_dynamic(chk, r, 4000 if thorough else 260, root, stats)
         timing["dynamic"] = round(time.time() - t0, 1)
         t0 = time.time()
         run_cts(chk, stats)
         timing["cts"] = round(time.time() - t0, 1)
         t0 = time.time()
-        run_schedules(chk, C.rng("c03", "sched"), 200 if thorough else 16, 500, stats)
+        run_schedules(chk, C.rng("c03", "sched"), 130 if thorough else 16, 500, stats)
         timing["schedules"] = round(time.time() - t0, 1)
         t0 = time.time()
         items: list[dict[str, Any]] = []
